@@ -9,7 +9,7 @@
    accepts from an empty style stack and leaves with an empty style stack (so no tag spans a line break).
    good_opsb sty ops: every line of every text written by ops is good markup (whatever the indentations). *)
 From Clikit Require Import Base.Prelude Base.Res Base.Term Model.Conv Model.Markup Model.Section
-  Proofs.TermLemmas Proofs.MarkupLemmas Proofs.SectionLemmas.
+  Proofs.TermLemmas Proofs.MarkupLemmas Proofs.SectionLemmas Proofs.SectionAboveLemmas.
 
 (* For EVERY sequence of section creations, indentations, writes, overwrites and full or partial clears of good markup,
    every terminal width >= 1 and every decorating formatter (any style table) whose style stack is empty: no call raises;
@@ -135,3 +135,37 @@ Example c15_plain_appended_instance :
   good_opsb (f_styles demo_p) ops = true /\ pfmt_ok (f_styles demo_p) demo_p /\
   plain_out (f_styles demo_p) [] ops = [Ch 32; Ch 32; Ch 97; Nl; Nl; Ch 32; Ch 32; Ch 99; Nl]%N.
 Proof. vm_compute. repeat split. discriminate. Qed.
+
+(* ROWS ABOVE THE SECTIONS.  The statements above start from an empty terminal, where the first section begins on the first
+   row: a cursor movement that goes too far up is clamped there and leaves no trace.  On a terminal that already shows
+   complete rows P above the cursor (below P: the rows P, the cursor at the start of the row under them) the same run of
+   good markup leaves P as it was and stacks the sections under it - for every width, style table, op sequence and P.
+   (The oracle of harness/props/C15.py replays the bytes below three rows: clause rows-above-the-sections-disturbed.)
+   The third conjunct repeats screen_is_stack for the same run, so that both terminals speak of the same st and es. *)
+Theorem rows_above_are_kept : forall w, 1 <= w -> forall f0 ops P, is_ansi f0 -> f_stack f0 = [] ->
+  good_opsb (f_styles f0) ops = true ->
+  exists st f es, srun true w [] f0 ops = Ok (st, f, es) /\
+    feed w (below P) es = below (P ++ stacked w (f_styles f0) st) /\
+    feed w term_init es = screen w (f_styles f0) st.
+Proof. exact rows_above_are_kept_lemma. Qed.
+Print Assumptions rows_above_are_kept.
+(* the premises are met by a run that wraps a line, overwrites the upper section and clears the lower one, below two rows *)
+Example c15_rows_above_instance :
+  let ops := [SCreate 0; SCreate 0; SWrite 0 (repeat 97%N 25) true; SWrite 1 [98; 98]%N true; SOverwrite 0 [99]%N; SClear 1 None] in
+  let P := [[35]%N; [35; 35]%N] in
+  match srun true 10 [] demo_f ops with
+  | Ok (st, _, es) => rows (feed 10 (below P) es) = P ++ [[99]%N; []] /\ cr (feed 10 (below P) es) = 3
+                      /\ good_opsb (f_styles demo_f) ops = true
+  | Err _ => False
+  end.
+Proof. vm_compute. repeat split. Qed.
+(* a text that ENDS with a line break ("s" LF): its last content line is an empty one - two rows, and the overwrite that
+   follows takes both away (the audit's mutant counted splitlines() and left a stale row) *)
+Example c15_text_ending_in_a_line_break :
+  let ops := [SCreate 0; SWrite 0 [115; 10]%N true; SOverwrite 0 [116]%N] in
+  match srun true 10 [] demo_f [SCreate 0; SWrite 0 [115; 10]%N true], srun true 10 [] demo_f ops with
+  | Ok (st1, _, _), Ok (st, _, es) => map sc_lines st1 = [2] /\ map sc_content st1 = [[[115]%N; []]]
+                                      /\ rows (feed 10 term_init es) = [[116]%N; []] /\ good_opsb (f_styles demo_f) ops = true
+  | _, _ => False
+  end.
+Proof. vm_compute. repeat split. Qed.
